@@ -9,6 +9,7 @@ import MdIt.Drv.Url
 import MdIt.Drv.Core
 import MdIt.Drv.Inline
 import MdIt.Drv.Block
+import MdIt.Drv.Refs
 open MdIt
 
 def handle (line : String) : String :=
@@ -20,6 +21,7 @@ def handle (line : String) : String :=
   | "world" :: rest => Drv.worldLine rest
   | "dictrt" :: rest => Drv.dictrtLine rest
   | "tree" :: rest => Drv.treeLine rest
+  | "refs" :: rest => Drv.refsLine rest
   | "cutline" :: rest => Drv.verbatimLine "cutline" rest
   | "codespan" :: rest => Drv.verbatimLine "codespan" rest
   | "hr" :: rest => Drv.verbatimLine "hr" rest
